@@ -314,6 +314,41 @@ fn tail_has_branch(seq: &[Node]) -> bool {
     false
 }
 
+/// The alternatives a negation pattern is split into before partitioning (mirrors the
+/// documented behaviour of `not`: trivial wrappers are collapsed, top-level alternations are
+/// flattened).
+pub fn alternatives_of(seq: &Seq) -> Vec<Seq> {
+    let toks: Vec<&Node> = seq.iter().filter(|n| !n.is_flag()).collect();
+    if toks.len() == 1 && seq.len() == 1 {
+        match &toks[0].kind {
+            Kind::Alt(bs) => return bs.iter().flat_map(alternatives_of).collect(),
+            Kind::Rep { body, bounds } if bounds.values() == Some((1, Some(1))) => return alternatives_of(body),
+            _ => {},
+        }
+    }
+    vec![seq.clone()]
+}
+
+/// Does some alternative of the patterns CLAIM to be always exhaustive and match `ancestor`?
+/// (The recorded exhaustiveness findings are about such claims; a tree discard without a claim
+/// is a different defect.) Unknown (an alternative does not build on its own) counts as yes.
+pub fn some_alternative_claims_always(asts: &[Seq], ancestor: &str) -> bool {
+    for ast in asts {
+        for alt in alternatives_of(ast) {
+            let text = syntax::to_text(&alt);
+            match model::build_ok(&text) {
+                None => return true,
+                Some(g) => {
+                    if g.is_exhaustive() == When::Always && g.is_match(ancestor) {
+                        return true;
+                    }
+                },
+            }
+        }
+    }
+    false
+}
+
 /// Known-finding classifier for C09/C03 (DESIGN §6.1): identifies the recorded defect classes of
 /// the exhaustiveness analysis by the witness and by the structure of the expression.
 pub fn c09_class(asts: &[Seq], ancestor: &str) -> Option<String> {
